@@ -41,24 +41,34 @@ def _bind(b, name, kind, shape, concrete):
             b.free(name, shape)
 
 
-def regression_case(Dw, Dy, N, concrete=(), timeout=900):
-    cid = f"C11/regression/Dw{Dw}Dy{Dy}N{N}" + ("/concrete-" + "-".join(concrete) if concrete else "")
-    cfg = dict(workflow="Bayesian linear regression, three routes, all update orders", Dw=Dw, Dy=Dy, N=N, concrete_blocks=list(concrete))
+def regression_case(Dw, Dy, N, concrete=(), timeout=900, cond="full", via="Sigma"):
+    cid = f"C11/regression/Dw{Dw}Dy{Dy}N{N}" + ("/concrete-" + "-".join(concrete) if concrete else "") + (f"/{cond}-via{via}" if (cond, via) != ("full", "Sigma") else "")
+    cfg = dict(workflow="Bayesian linear regression, three routes, all update orders", Dw=Dw, Dy=Dy, N=N, concrete_blocks=list(concrete),
+               conditional_class=cond, constructed_from=via)
     perms = list(itertools.permutations(range(N)))
+    cond_kind = cond
 
     def declare(b):
         _bind(b, "Sw", "spd", (1, Dw), "Sw" in concrete)
         b.free("mw", (1, Dw))
         _bind(b, "M", "free", (N, Dy, Dw), "M" in concrete)
         b.free("bb", (N, Dy))
-        _bind(b, "Sy", "spd", (N, Dy), "Sy" in concrete)
+        if cond == "diag":
+            b.diag("Sy", N, Dy)
+        else:
+            _bind(b, "Sy", "spd", (N, Dy), "Sy" in concrete)
+        if via == "Lambda":
+            from .c02 import _inv_of
+            b.derived("Ly", (N, Dy, Dy), _inv_of("Sy", N, Dy))
         b.free("y", (N, Dy))
 
     def fn(**A):
         import jax.numpy as jnp
         factor, measure, pdf, conditional = gt()
         prior = pdf.GaussianPDF(Sigma=A["Sw"], mu=A["mw"])
-        cond = conditional.ConditionalGaussianPDF(M=A["M"], b=A["bb"], Sigma=A["Sy"])
+        ccls = conditional.ConditionalGaussianDiagPDF if cond_kind == "diag" else conditional.ConditionalGaussianPDF
+        covkw = {"Lambda": A["Ly"]} if via == "Lambda" else {"Sigma": A["Sy"]}
+        cond = ccls(M=A["M"], b=A["bb"], **covkw)
         y = A["y"]
         out = {"seq": []}
         # (a) sequential, every order
@@ -203,6 +213,9 @@ def cases(tier, seed=0):
            regression_case(2, 1, 2, concrete=("M", "Sy")),
            regression_case(2, 1, 2, concrete=("M", "Sw")),
            regression_case(1, 2, 2, concrete=("Sy", "Sw")),
+           regression_case(1, 1, 2, cond="diag", via="Lambda"),
+           regression_case(1, 1, 2, cond="full", via="Lambda"),
+           regression_case(1, 1, 2, cond="diag", via="Sigma"),
            kalman_case(1, 1, 2),
            kalman_case(2, 1, 2, concrete=("A", "Q", "C", "R", "S0")),
            kalman_case(2, 1, 2, concrete=("A", "Q", "R", "S0")),
